@@ -140,6 +140,7 @@ NOT_APPLICABLE = {
     "C17": "real OS thread pool, mpsc/oneshot channels and panics crossing threads; no unwinding and no threads in Kani",
 }
 
-NOTES = ("Technique family: solver-based checking of the real code (Kani/CBMC over compiled code; MIR->SMT for the lock-free protocols). "
+NOTES = ("Technique family: solver-based checking of the real code (Kani/CBMC over compiled code; MIR->SMT for the lock-free protocols and for loop-free integer kernels). "
+         "Repairs of genuine defects in /repo: fix: commits 75fe83e (C06), 17418ce (C11), d0196c3 (C09), recorded in known_findings.json; one recorded known finding (C08, manual-reset event). "
          "Exit codes of ./check: 0 = property held on everything explored, 1 = VIOLATION (replayed against the real build), "
          "2 = no verdict (timeout, out of memory, unsupported construct, non-reproducing counterexample) - never reported as a pass.")
